@@ -235,6 +235,18 @@ def _select(fn, sel):
         if part is None:
             raise TranslationError(f'slice without {sel[4]} bound')
         return part
+    if sel[0] == 'store':
+        # ('store', buffer name, nth, 'lower' | 'upper'): a bound of the nth slice *stored into* `name` (x[a:b] = ...)
+        hits = [n.targets[0] for n in ast.walk(fn) if isinstance(n, ast.Assign) and len(n.targets) == 1
+                and isinstance(n.targets[0], ast.Subscript) and isinstance(n.targets[0].value, ast.Name)
+                and n.targets[0].value.id == sel[1] and isinstance(n.targets[0].slice, ast.Slice)]
+        hits.sort(key=lambda n: (n.lineno, n.col_offset))
+        if len(hits) <= sel[2]:
+            raise TranslationError(f'store #{sel[2]} into {sel[1]} not found')
+        part = hits[sel[2]].slice.lower if sel[3] == 'lower' else hits[sel[2]].slice.upper
+        if part is None:
+            raise TranslationError(f'store #{sel[2]} into {sel[1]} has no {sel[3]} bound')
+        return part
     if sel[0] == 'wslot':
         # ('wslot', buffer name, nth, width): offset of the nth constant-slice store into the buffer
         hits = [n.targets[0] for n in ast.walk(fn) if isinstance(n, ast.Assign) and len(n.targets) == 1
@@ -427,6 +439,21 @@ SPEC = [
     ('rb_idx_hi', 'conversion.py', 'SgzConverter.convert_to_adv_sgz', ('callarg', 'slice', 0, 1), 'Nat'),
     ('rb_src_lo', 'conversion.py', 'SgzConverter.convert_to_adv_sgz', ('subscript', 'buffer', 0, 0, 'lower'), 'Nat'),
     ('rb_src_hi', 'conversion.py', 'SgzConverter.convert_to_adv_sgz', ('subscript', 'buffer', 0, 0, 'upper'), 'Nat'),
+    # the header-word table: 12 bytes per row, three signed words; where it is stored and read
+    ('tbl_bytes', 'headers.py', 'HeaderwordInfo.to_buffer', ('callarg', 'bytearray', 0, 0), 'Nat'),
+    ('tbl_row_start', 'headers.py', 'HeaderwordInfo.to_buffer', ('assign', 'start', 0), 'Nat'),
+    ('tbl_code_lo', 'headers.py', 'HeaderwordInfo.to_buffer', ('store', 'buf', 0, 'lower'), 'Nat'),
+    ('tbl_code_hi', 'headers.py', 'HeaderwordInfo.to_buffer', ('store', 'buf', 0, 'upper'), 'Nat'),
+    ('tbl_const_lo', 'headers.py', 'HeaderwordInfo.to_buffer', ('store', 'buf', 1, 'lower'), 'Nat'),
+    ('tbl_const_hi', 'headers.py', 'HeaderwordInfo.to_buffer', ('store', 'buf', 1, 'upper'), 'Nat'),
+    ('tbl_dup_lo', 'headers.py', 'HeaderwordInfo.to_buffer', ('store', 'buf', 2, 'lower'), 'Nat'),
+    ('tbl_dup_hi', 'headers.py', 'HeaderwordInfo.to_buffer', ('store', 'buf', 2, 'upper'), 'Nat'),
+    ('tblr_lo', 'headers.py', 'HeaderwordInfo.__init__', ('subscript', 'buffer', 0, 0, 'lower'), 'Nat'),
+    ('tblr_hi', 'headers.py', 'HeaderwordInfo.__init__', ('subscript', 'buffer', 0, 0, 'upper'), 'Nat'),
+    ('tblr_slice_lo', 'read.py', 'SgzReader._decode_traceheader_template', ('subscript', 'headerbytes', 0, 0, 'lower'), 'Nat'),
+    ('tblr_slice_hi', 'read.py', 'SgzReader._decode_traceheader_template', ('subscript', 'headerbytes', 0, 0, 'upper'), 'Nat'),
+    ('tbl_patch_count_seek', 'conversion.py', 'SeismicFileConverter.write_headers', ('callarg', 'seek', 0, 0), 'Nat'),
+    ('tbl_patch_seek', 'conversion.py', 'SeismicFileConverter.write_headers', ('callarg', 'seek', 1, 0), 'Nat'),
     # windowed conversion: the traces header detection looks at, the number of header slots
     ('win_first_trace', 'conversion.py', 'SeismicFileConverter.get_blank_header_info', ('assign', 'first_trace', 0), 'Nat'),
     ('win_last_trace', 'conversion.py', 'SeismicFileConverter.get_blank_header_info', ('assign', 'last_trace', 0), 'Nat'),
